@@ -102,14 +102,40 @@ def display_term(t):
 
 
 def types_overlap(T1, T2):
-    """Whether one of the two types is an instance of the other."""
-    for A, B in ((T1, T2), (T2, T1)):
-        try:
-            A.convert_stvar().match(B)
+    """Whether the two types have a common instance, the type variables
+    of T1 and T2 being independent of each other.
+
+    """
+    subst = dict()  # (side, name) -> (side, type)
+
+    def resolve(side, T):
+        while (T.is_tvar() or T.is_stvar()) and (side, T.name) in subst:
+            side, T = subst[(side, T.name)]
+        return side, T
+
+    def occurs(key, side, T):
+        side, T = resolve(side, T)
+        if T.is_tvar() or T.is_stvar():
+            return (side, T.name) == key
+        return any(occurs(key, side, arg) for arg in T.args)
+
+    def unify(side1, T1, side2, T2):
+        side1, T1 = resolve(side1, T1)
+        side2, T2 = resolve(side2, T2)
+        if T1.is_tvar() or T1.is_stvar():
+            if (T2.is_tvar() or T2.is_stvar()) and (side1, T1.name) == (side2, T2.name):
+                return True
+            if occurs((side1, T1.name), side2, T2):
+                return False
+            subst[(side1, T1.name)] = (side2, T2)
             return True
-        except TypeMatchException:
-            pass
-    return False
+        elif T2.is_tvar() or T2.is_stvar():
+            return unify(side2, T2, side1, T1)
+        else:
+            return T1.name == T2.name and len(T1.args) == len(T2.args) and \
+                all(unify(side1, a1, side2, a2) for a1, a2 in zip(T1.args, T2.args))
+
+    return unify(1, T1, 2, T2)
 
 def term_tvars(t):
     """Type variables (and schematic type variables) occurring in the term t."""
